@@ -1607,6 +1607,9 @@ func (s *Store) StoreObject(collection CollectionIndex, id string, data interfac
 	indexBytes := make([]byte, 2)
 	binary.BigEndian.PutUint16(indexBytes, uint16(collection))
 	key := append(indexBytes, []byte("::"+id)...)
+	if err = verifhook.Fault("store.object"); err != nil {
+		return err
+	}
 	err = s.storeValue(key, b)
 	if err != nil {
 		s.logger.Error(err)
